@@ -756,6 +756,16 @@ if kind in ('bspline_routes', 'nurbs_routes'):
         attempt('grid_eval', lambda: close(f.grid_eval(grid), Nv)); attempt('eval', lambda: close(f.eval(*xyz), Nv)); attempt('pointwise_eval', lambda: close(f.pointwise_eval(pts), Nv))
         attempt('grid_jacobian', lambda: close(f.grid_jacobian(grid), J)); attempt('pointwise_jacobian', lambda: close(f.pointwise_jacobian(pts), J))
         attempt('grid_hessian', lambda: close(f.grid_hessian(grid), H))
+        # operation sequence on one object: derivatives, re-bind .coeffs (as geometry.disk() does), derivatives again -- against a fresh object
+        if not scalar:
+            new = np.concatenate((rng.rand(*(N + (dim,))), (rng.rand(*N) + 0.5)[..., None]), -1)
+            f.grid_jacobian(grid); f.grid_hessian(grid)
+            f.coeffs = new.copy()
+            fresh = geometry.NurbsFunc(kvs, new.copy(), None, premultiplied=True)
+            attempt('after re-binding coeffs: grid_eval', lambda: close(f.grid_eval(grid), fresh.grid_eval(grid)))
+            attempt('after re-binding coeffs: grid_jacobian', lambda: close(f.grid_jacobian(grid), fresh.grid_jacobian(grid)))
+            attempt('after re-binding coeffs: pointwise_jacobian', lambda: close(f.pointwise_jacobian(pts), fresh.grid_jacobian(grid)))
+            attempt('after re-binding coeffs: grid_hessian', lambda: close(f.grid_hessian(grid), fresh.grid_hessian(grid)))
 elif kind == 'generic':
     # operations / constructors: numeric re-run of the same obligation family through the public API
     exec(w['script'])
